@@ -25,6 +25,7 @@ ap.add_argument("--tier", default="quick")
 ap.add_argument("--skip-confirm", action="store_true")
 ap.add_argument("--in-repo", action="store_true")
 ap.add_argument("--jobs", default="")
+ap.add_argument("--rev", default="HEAD", help="repository commit the patch was written against (default HEAD)")
 args = ap.parse_args()
 d = os.path.abspath(args.dir)
 patch = os.path.join(d, "patch.diff")
@@ -66,7 +67,8 @@ def run_checks(checks, env):
 
 checks = ["C%02d" % i for i in range(1, 21)] if args.all else [c for c in args.checks.split(",") if c]
 wt = "/tmp/seedwt-%d" % os.getpid()
-sh(["git", "-C", "/repo", "worktree", "add", "-q", "--detach", wt, "HEAD"])
+sh(["git", "-C", "/repo", "worktree", "add", "-q", "--detach", wt, args.rev])
+res["rev"] = sh(["git", "-C", wt, "rev-parse", "--short", "HEAD"]).stdout.strip()
 try:
     a = sh(["git", "-C", wt, "apply", patch])
     if a.returncode != 0:
